@@ -20,6 +20,29 @@ ROWS = [
     ("wcsnlen_s", "src/wchar/wcsnlen_s.c", "wchar_t", "QK_NLEN", "_wcsnlen_s_chk(dest,dmax,destbos)"),
     ("strprefix_s", "src/extstr/strprefix_s.c", "char", "QK_PREFIX", "_strprefix_s_chk(dest,dmax,src,destbos)"),
     ("strisdigit_s", "src/extstr/strisdigit_s.c", "char", "QK_ISDIGIT", "_strisdigit_s_chk(dest,dmax,destbos)"),
+    ("strcasecmp_s", "src/extstr/strcasecmp_s.c", "char", "QK_CASECMP", "_strcasecmp_s_chk(dest,dmax,src,&cmp,destbos)", ["-DFULLBYTES"]),
+    ("strcmpfld_s", "src/extstr/strcmpfld_s.c", "char", "QK_CMPFLD", "_strcmpfld_s_chk(dest,dmax,src,&cmp,destbos)", ["-DFULLBYTES"]),
+    ("strfirstdiff_s", "src/extstr/strfirstdiff_s.c", "char", "QK_FIRSTDIFF", "_strfirstdiff_s_chk(dest,dmax,src,&count,destbos)", ["-DFULLBYTES"]),
+    ("strfirstsame_s", "src/extstr/strfirstsame_s.c", "char", "QK_FIRSTSAME", "_strfirstsame_s_chk(dest,dmax,src,&count,destbos)", ["-DFULLBYTES"]),
+    ("strlastdiff_s", "src/extstr/strlastdiff_s.c", "char", "QK_LASTDIFF", "_strlastdiff_s_chk(dest,dmax,src,&count,destbos)", ["-DFULLBYTES"]),
+    ("strlastsame_s", "src/extstr/strlastsame_s.c", "char", "QK_LASTSAME", "_strlastsame_s_chk(dest,dmax,src,&count,destbos)", ["-DFULLBYTES"]),
+    ("strpbrk_s", "src/extstr/strpbrk_s.c", "char", "QK_PBRK", "_strpbrk_s_chk(dest,dmax,src,slen,&res,destbos,srcbos)", []),
+    ("strisalphanumeric_s", "src/extstr/strisalphanumeric_s.c", "char", "QK_CLASS", "_strisalphanumeric_s_chk(dest,dmax,destbos)", ["-DFULLBYTES", "-DCLSK=1"]),
+    ("strisascii_s", "src/extstr/strisascii_s.c", "char", "QK_CLASS", "_strisascii_s_chk(dest,dmax,destbos)", ["-DFULLBYTES", "-DCLSK=2"]),
+    ("strishex_s", "src/extstr/strishex_s.c", "char", "QK_CLASS", "_strishex_s_chk(dest,dmax,destbos)", ["-DFULLBYTES", "-DCLSK=3"]),
+    ("strislowercase_s", "src/extstr/strislowercase_s.c", "char", "QK_CLASS", "_strislowercase_s_chk(dest,dmax,destbos)", ["-DFULLBYTES", "-DCLSK=4"]),
+    ("strisuppercase_s", "src/extstr/strisuppercase_s.c", "char", "QK_CLASS", "_strisuppercase_s_chk(dest,dmax,destbos)", ["-DFULLBYTES", "-DCLSK=5"]),
+    ("strismixedcase_s", "src/extstr/strismixedcase_s.c", "char", "QK_CLASS", "_strismixedcase_s_chk(dest,dmax,destbos)", ["-DFULLBYTES", "-DCLSK=6"]),
+    ("wcscmp_s", "src/extwchar/wcscmp_s.c", "wchar_t", "QK_WCMP", "_wcscmp_s_chk(dest,dmax,src,slen,&cmp,destbos,srcbos)",
+     ["-DWLIM=(dmax<slen?dmax:slen)"]),
+    ("wcsncmp_s", "src/extwchar/wcsncmp_s.c", "wchar_t", "QK_WCMP", "_wcsncmp_s_chk(dest,dmax,src,slen,cnt,&cmp,destbos,srcbos)",
+     ["-DWLIM=((dmax<slen?dmax:slen)<cnt?(dmax<slen?dmax:slen):cnt)"]),
+    ("wmemcmp_s", "src/extwchar/wmemcmp_s.c", "wchar_t", "QK_WCMP", "_wmemcmp_s_chk(dest,dmax,src,slen,&cmp,destbos,srcbos)",
+     ["-DWLIM=slen", "-DWSTOPNUL=0"]),
+    ("memcmp16_s", "src/extmem/memcmp16_s.c", "uint16_t", "QK_WCMP", "_memcmp16_s_chk(dest,dmax,src,slen,&cmp,destbos,srcbos)",
+     ["-DWLIM=slen", "-DWSTOPNUL=0"]),
+    ("memcmp32_s", "src/extmem/memcmp32_s.c", "uint32_t", "QK_WCMP", "_memcmp32_s_chk(dest,dmax,src,slen,&cmp,destbos,srcbos)",
+     ["-DWLIM=slen", "-DWSTOPNUL=0"]),
 ]
 EXTRA = {"strrchr_s": ["src/extmem/memrchr_s.c"], "strcasestr_s": []}
 
@@ -28,16 +51,18 @@ def jobs(prop, tier, only_fn=None):
     out = []
     if prop not in ("C10", "C02"):
         return out
-    for name, f, T, qk, call in ROWS:
+    for row in ROWS:
+        name, f, T, qk, call = row[:5]
+        xdefs = list(row[5]) if len(row) > 5 else []
         if only_fn and name != only_fn:
             continue
         geos = [(4, 3)] if tier == "quick" else [(4, 3), (6, 4), (5, 5)]
-        if T == "wchar_t" and tier == "quick":
+        if T in ("wchar_t", "uint32_t", "uint16_t") and tier == "quick":
             geos = [(3, 3)]
         for (dn, sn) in geos:
             files = sorted(set([f] + SUP + EXTRA.get(name, [])))
             out.append(Job("%s.%s.d%d.s%d" % (name, prop, dn, sn), prop, "h_query.c", files,
-                           defines=["-DT=%s" % T, "-DQK=%s" % qk, "-DDN=%d" % dn, "-DSN=%d" % sn, "-DCALL=%s" % call], unwind_default=max(dn, sn) + 3,
+                           defines=["-DT=%s" % T, "-DQK=%s" % qk, "-DDN=%d" % dn, "-DSN=%d" % sn, "-DCALL=%s" % call] + xdefs, unwind_default=max(dn, sn) + 3,
                            memchecks=True, fn=name,
                            bounds={"dest object": dn, "src object": sn, "dmax/slen": "symbolic", "terminator positions": "symbolic",
                                    "alphabet": "NUL a b A 1 0xE9", "objects": "exact size (guard objects)"}, timeout=300))
